@@ -137,6 +137,8 @@ def _ext_match(fn, args, kw):
     rest = args[1:]
     if len(rest) == 1 and isinstance(rest[0], _ast.Starred) and dotted(rest[0].value) in tables:
         exts = tables[dotted(rest[0].value)]
+    elif len(rest) == 1 and isinstance(rest[0], _ast.Starred):
+        exts = fn.expr(rest[0].value)
     elif rest and not any(isinstance(a, _ast.Starred) for a in rest):
         exts = "[" + ", ".join(fn.expr(a) for a in rest) + "]"
     else:
@@ -382,4 +384,24 @@ BINDINGS = [
                 "self._path.join(songs_dir)": "(false, {1})", "self._path.split": "((), packName){_0}",
                 "self.filesystem.exists": "(besideExists ({0}).2)"},
          truthy={"extensions.match()": "(({0}).isSome = true)", "self.filesystem.exists()": "({0} = true)"}),
+
+    # ---- assets.py (C20)
+    dict(file="simfile/assets.py", qual="AssetDefinition.matches", module="Assets", lean="assetMatches",
+         state_params=[("presets", "List Str"), ("exts", "List Str"), ("byExt", "Bool")], params=[("path", "Str")], ignore_params=["self"],
+         ret="Bool", model="assetMatches (for the table entry of the kind)", theorem="assetMatches_eq", properties=["C20"],
+         imports=["Simfile.Model.Dir", "Simfile.Gen.PyRe", "Simfile.Gen.Code.Ext"],
+         names={"self.presets": "presets", "self.extensions": "exts"},
+         truthy={"any()": "({0} = true)", "self.match_by_extension": "(byExt = true)", "extensions.match()": "(({0}).isSome = true)",
+                 "re.search()": "({0} = true)"},
+         # os.path.splitext(name)[0] is Model/Dir.lean's `stem` (tied to CPython by the path stream of C20)
+         calls={"os.path.splitext": "(stem {0}, ())", "re.search": "(Py.reSearch {0} {1})", "extensions.match": _ext_match},
+         methods={"lower": "(lower {self})"}),
+    dict(file="simfile/assets.py", qual="Assets._get_case_insensitive_path", module="Assets", lean="caseInsensitive", ret_mode="option",
+         state_params=[("containing", "Option (List Str)"), ("filename", "Str")], params=[], ignore_params=["self", "path"],
+         ret="Option Str", model="caseInsensitive", theorem="caseInsensitive_eq", properties=["C20"],
+         imports=["Simfile.Model.Dir", "Simfile.Gen.PyRe", "Simfile.Gen.Code.Ext"], fallthrough="none",
+         # the containing directory is represented by its listing (none: not a directory); the answer by the entry's name
+         calls={"self._path.split": "((), filename){_0}", "self.filesystem.listdir": "(containing.getD []){_0}", "self._path.join": "{_0}{1}"},
+         truthy={"self.filesystem.isdir()": "(containing ≠ none)"},
+         methods={"lower": "(lower {self})", "isdir": "(containing ≠ none){_0}"}),
 ]
